@@ -1,6 +1,7 @@
 from vlib.driver import Job
 
 REL, PKG = "util/container", "container"
+FLAGS = ["-nomerge"]   # comparison-driven merge loops: plain forking keeps every query a conjunction of atoms (5x faster here)
 
 
 def shapes(tier):
@@ -22,13 +23,13 @@ def jobs(ctx):
     for entry in ("VerifC25Merge", "VerifC25Intersect"):
         for la, lb in shapes(ctx.tier):
             for rc in ((0, 1, 2, 3) if la + lb <= 4 else (0, 3)):
-                out.append(Job(REL, PKG, "c25_algebra.go", entry, {"la": la, "lb": lb, "rc": rc},
+                out.append(Job(REL, PKG, "c25_algebra.go", entry, {"la": la, "lb": lb, "rc": rc}, flags=FLAGS,
                                tag="%s la=%d lb=%d rc=%d" % (entry, la, lb, rc), cost=1 + 3.0 ** min(la, lb) * (1 + max(la, lb))))
     for la, lb in shapes("quick"):
         if la + lb <= 5:
-            out.append(Job(REL, PKG, "c25_algebra.go", "VerifC25Misc", {"la": la, "lb": lb}, tag="misc la=%d lb=%d" % (la, lb), cost=2.0 ** (la + lb)))
+            out.append(Job(REL, PKG, "c25_algebra.go", "VerifC25Misc", {"la": la, "lb": lb}, flags=FLAGS, tag="misc la=%d lb=%d" % (la, lb), cost=2.0 ** (la + lb)))
     for entry in ("VerifC25Merge", "VerifC25Intersect", "VerifC25Misc"):
-        out.append(Job(REL, PKG, "c25_algebra.go", entry, {"la": 1, "lb": 1, "rc": 3}, tag=entry + " twin", twin=True))
+        out.append(Job(REL, PKG, "c25_algebra.go", entry, {"la": 1, "lb": 1, "rc": 3}, flags=FLAGS, tag=entry + " twin", twin=True))
     return out
 
 
